@@ -107,3 +107,14 @@ pub fn run(args: &[String]) -> i32 {
     }
     0
 }
+
+/// render <cases.ndjson> <out.ndjson>: abstract documents -> text (default layout), nothing else
+pub fn run_render(args: &[String]) -> i32 {
+    let cases = read_ndjson(&args[0]);
+    let mut out = Out::create(&args[1]);
+    for c in &cases {
+        let text = if c["kind"] == "op" { render_op_doc(&c["A"]).0 } else { render_ts_doc(&c["A"]).0 };
+        out.emit(&json!({"text": if c["A"]["defs"].as_array().map(|a| a.is_empty()).unwrap_or(true) { String::new() } else { text }}));
+    }
+    0
+}
